@@ -29,9 +29,13 @@ ESCAPE_SEQUENCE_RE = re.compile(r'''
     )''', re.UNICODE | re.VERBOSE)
 
 
-def decode_escapes(s):
+def decode_escapes(s, position=0):
     def decode_match(match):
-        return codecs.decode(match.group(0), 'unicode-escape')
+        try:
+            return codecs.decode(match.group(0), 'unicode-escape')
+        except UnicodeDecodeError:
+            raise exceptions.YaqlLexicalException(
+                '\\', position + match.start())
     return ESCAPE_SEQUENCE_RE.sub(decode_match, s)
 
 
@@ -120,7 +124,7 @@ class Lexer:
         """
         '([^'\\\\]|\\\\.)*'
         """
-        t.value = decode_escapes(t.value[1:-1])
+        t.value = decode_escapes(t.value[1:-1], t.lexpos + 1)
         return t
 
     @staticmethod
@@ -128,7 +132,7 @@ class Lexer:
         """
         "([^"\\\\]|\\\\.)*"
         """
-        t.value = decode_escapes(t.value[1:-1])
+        t.value = decode_escapes(t.value[1:-1], t.lexpos + 1)
         t.type = 'QUOTED_STRING'
         return t
 
